@@ -1,3 +1,4 @@
+import TantivyModel.Proofs.SSTable.FileWritten
 import TantivyModel.Proofs.SSTable.FileOrd
 import TantivyModel.Proofs.SSTable.WriterFull
 import TantivyModel.Proofs.SSTable.SearchLim
@@ -1158,7 +1159,7 @@ theorem C15_file_ord_to_term (skip : List UInt8 → List UInt8) (blocks : List (
     (hpsz : ∀ p ∈ ps, p ≠ [] ∧ p.length + 1 < 4294967296)
     (hg : GoodStore gs)
     (hcount : (allOrds gs).length = blocks.length)
-    (hAddr : ∀ (id : Nat) a, (openStore (storeBytes gs)).get id = some a →
+    (hAddr : ∀ (id : Nat) a, id < blocks.length → (openStore (storeBytes gs)).get id = some a →
       a.firstOrd = ordStart blocks id ∧ a.start = frameStart ps id ∧ a.stop = frameStart ps (id + 1))
     (hfst0 : fst.length ≠ 0) (hfst : fst.length < 18446744073709551616)
     (hdata : (frameBlocks ps).length < 18446744073709551616)
@@ -1175,7 +1176,7 @@ theorem C15_written_file_ord_to_term (blockLen : Nat) (ks : List Key) (hs : Stri
     (hsize : ∀ b ∈ encodeBlocks blockLen ks, b.length + 1 < 4294967296)
     (hg : GoodStore gs)
     (hcount : (allOrds gs).length = (blocksOf id blockLen ks).length)
-    (hAddr : ∀ (i : Nat) a, (openStore (storeBytes gs)).get i = some a →
+    (hAddr : ∀ (i : Nat) a, i < (blocksOf id blockLen ks).length → (openStore (storeBytes gs)).get i = some a →
       a.firstOrd = ordStart (blocksOf id blockLen ks) i ∧ a.start = frameStart (encodeBlocks blockLen ks) i ∧
         a.stop = frameStart (encodeBlocks blockLen ks) (i + 1))
     (hfst0 : fst.length ≠ 0) (hfst : fst.length < 18446744073709551616)
@@ -1214,6 +1215,87 @@ example : fileOrdToTerm id (finishFile (frameBlocks [[16, 7], [16, 9]])
       ([1, 2, 3] ++ storeBytes [⟨7, 5, 1, 3, ⟨0, 0, 7⟩, [⟨1, 7, 14⟩], 14⟩] ++ u64enc 3) 2 3) 1 = some (some [9]) ∧
     fileOrdToTerm id (finishFile (frameBlocks [[16, 7], [16, 9]])
       ([1, 2, 3] ++ storeBytes [⟨7, 5, 1, 3, ⟨0, 0, 7⟩, [⟨1, 7, 14⟩], 14⟩] ++ u64enc 3) 2 3) 2 = some none := by decide
+
+/-! ## round 2: the whole block-address store as the writer lays it out -/
+
+/-- `BlockAddrStoreWriter` (addresses buffered, a store block flushed every `STORE_BLOCK_LEN`
+addresses and at the end, reference = first buffered address, slopes and widths from
+`find_best_slope`, fields bit-packed, 36-byte metadata records with running offsets, length prefix)
+followed by `BlockAddrStore::open` + `get`: EVERY address comes back under its block id — for every
+list of addresses in which each block ends where the next starts, provided the data is monotone,
+the deviations stay below the 56-bit cut-off of `compute_num_bits` and the sizes fit the metadata
+fields (`WriterStoreOk`). The real store bytes are rebuilt from the decoded address list alone,
+byte-exactly, on every run (`rebuildStoreOk`). -/
+theorem C15_writer_store_get (addrs : List BlockAddr) (hch : Chained addrs) (hok : WriterStoreOk addrs)
+    (id : Nat) (hid : id < addrs.length) :
+    (openStore (storeBytes (writerStore addrs))).get id = addrs[id]? :=
+  writer_store_get addrs hch hok id hid
+
+/-- and `binary_search_ord` on those bytes is the abstract ordinal search over the first ordinals
+of the given addresses -/
+theorem C15_writer_store_locate_ord (addrs : List BlockAddr) (hne : addrs ≠ []) (hch : Chained addrs)
+    (hok : WriterStoreOk addrs) (ord : Nat)
+    (hs : (addrs.map (·.firstOrd)).Pairwise (· < ·)) (h0 : (addrs.map (·.firstOrd)).getD 0 0 ≤ ord) :
+    (openStore (storeBytes (writerStore addrs))).locateOrd ord
+      = ((addrs.map (·.firstOrd)).filter (fun x => decide (x ≤ ord))).length - 1 := by
+  have he : allOrds (writerStore addrs) = addrs.map (·.firstOrd) := by
+    rw [allOrds_eq_map, writerStore_addrs addrs hch]
+  have := store_locate_ord (writerStore addrs) (writerStore_good addrs hne hok) ord (by rw [he]; exact hs)
+    (by rw [he]; exact h0)
+  rw [he] at this
+  exact this
+
+/-- `C15_file_ord_to_term` with the store the writer lays out for the frame addresses: nothing is
+assumed about what `get` returns any more. Data region of framed payloads, index region
+`fst | writer store | fst_len`, footer; `ord_to_term` on these bytes is the `ord`-th key. -/
+theorem C15_file_ord_to_term_written_store (skip : List UInt8 → List UInt8) (blocks : List (List Key))
+    (ps : List (List UInt8)) (fst : List UInt8) (numTerms version ord : Nat)
+    (hinc : ∀ b ∈ blocks, StrictInc b) (hne : ∀ b ∈ blocks, b ≠ []) (hbne : blocks ≠ [])
+    (hskip : ∀ (i : Nat) p b, ps[i]? = some p → blocks[i]? = some b → skip p = encodeBlockKeys b)
+    (hlen : ps.length = blocks.length)
+    (hpsz : ∀ p ∈ ps, p ≠ [] ∧ p.length + 1 < 4294967296)
+    (hok : WriterStoreOk (frameAddrs blocks ps))
+    (hfst0 : fst.length ≠ 0) (hfst : fst.length < 18446744073709551616)
+    (hdata : (frameBlocks ps).length < 18446744073709551616)
+    (hn : numTerms < 18446744073709551616) (hv : version < 4294967296) :
+    fileOrdToTerm skip (finishFile (frameBlocks ps)
+        (fst ++ storeBytes (writerStore (frameAddrs blocks ps)) ++ u64enc fst.length) numTerms version) ord
+      = some (blocks.flatten[ord]?) :=
+  written_file_ord_to_term skip blocks ps fst numTerms version ord hinc hne hbne hskip hlen hpsz hok
+    hfst0 hfst hdata hn hv
+
+example : frameAddrs [[[1]], [[2]]] [[16, 1], [16, 2]] = [⟨0, 0, 7⟩, ⟨1, 7, 14⟩] ∧
+    Chained [⟨0, 0, 7⟩, ⟨1, 7, 14⟩] := ⟨by decide, by simp [Chained]⟩
+
+/-- the hypotheses of the writer-store theorems are satisfiable: a two-address store -/
+example : WriterStoreOk [⟨0, 0, 7⟩, ⟨1, 7, 14⟩] := by
+  have hws : writerStore [⟨0, 0, 7⟩, ⟨1, 7, 14⟩] = [mkGroup ⟨0, 0, 7⟩ [⟨1, 7, 14⟩] 14] := rfl
+  have hr56 : numBits (maxDeviation (findBestSlope (rangeEls ⟨0, 0, 7⟩ [⟨1, 7, 14⟩] 14)).1
+      (rangeEls ⟨0, 0, 7⟩ [⟨1, 7, 14⟩] 14)) ≤ 56 := numBits_le_56 _ (by decide)
+  have ho56 : numBits (maxDeviation (findBestSlope (ordEls ⟨0, 0, 7⟩ [⟨1, 7, 14⟩])).1
+      (ordEls ⟨0, 0, 7⟩ [⟨1, 7, 14⟩])) ≤ 56 := numBits_le_56 _ (by decide)
+  have hgrp : WriterGroupOk ⟨0, 0, 7⟩ [⟨1, 7, 14⟩] 14 :=
+    ⟨fun _ _ => Nat.zero_le _, fun _ _ => Nat.zero_le _, hr56, ho56⟩
+  refine ⟨by rw [hws]; decide, ?_, ?_⟩
+  · intro g hg
+    rw [hws] at hg
+    simp only [List.mem_singleton] at hg
+    subst hg
+    exact hgrp
+  · intro k g hk
+    rw [hws] at hk ⊢
+    cases k with
+    | succ j => simp at hk
+    | zero =>
+      simp only [List.getElem?_cons_zero, Option.some.injEq] at hk
+      subst hk
+      have fr := findBestSlope_fits (rangeEls ⟨0, 0, 7⟩ [⟨1, 7, 14⟩] 14) hr56
+      have fo := findBestSlope_fits (ordEls ⟨0, 0, 7⟩ [⟨1, 7, 14⟩]) ho56
+      refine ⟨by decide, by decide, by decide, by decide, by decide, ?_, ?_, by decide⟩
+      · show (findBestSlope (ordEls ⟨0, 0, 7⟩ [⟨1, 7, 14⟩])).2 < 256
+        omega
+      · show (findBestSlope (rangeEls ⟨0, 0, 7⟩ [⟨1, 7, 14⟩] 14)).2 < 256
+        omega
 
 /-! ## non-vacuity -/
 
